@@ -193,6 +193,12 @@ pub fn check(c: &Case, stats: &mut Stats) -> CheckResult {
     if expected.terms.iter().any(|t| t.obsolete || t.replacement.is_some()) {
         stats.label("flags");
     }
+    if expected.terms.iter().any(|t| t.name.len() >= 247) {
+        stats.label("term-name>=247-bytes");
+    }
+    if (0..n_sections).any(|k| expected.recs[k].iter().any(|r| r.name.len() >= 247)) {
+        stats.label("record-name>=247-bytes");
+    }
     if full {
         stats.label("nontrivial");
         let mut h = Fnv::new();
@@ -210,15 +216,26 @@ fn strategy(tier: Tier) -> BoxedStrategy<Case> {
     let cfg = GenCfg::small().terms(2, maxt).recs(maxr).standard().with_flags(true).names(NameMode::Capped);
     (gen::facts(cfg), 1u8..=3, vec(any::<u8>(), 1..=16), proptest::bool::weighted(0.01))
         .prop_map(|(mut facts, version, suffix, big)| {
-            // keep files small: the truncation sweep decodes every prefix
+            // keep files small (the truncation sweep decodes every prefix): names are cut to 40
+            // bytes, except that one case in three keeps a single name at its full length (<= 255)
+            let mut keep_term = suffix[0] % 6 == 0;
+            let mut keep_rec = suffix[0] % 6 == 1;
             for t in facts.terms.iter_mut() {
                 if t.name.len() > 40 {
+                    if keep_term {
+                        keep_term = false;
+                        continue;
+                    }
                     t.name = char_prefix(&t.name, 40).to_string();
                 }
             }
             for k in 0..3 {
                 for r in facts.recs[k].iter_mut() {
                     if r.name.len() > 40 {
+                        if keep_rec {
+                            keep_rec = false;
+                            continue;
+                        }
                         r.name = char_prefix(&r.name, 40).to_string();
                     }
                 }
@@ -251,7 +268,7 @@ impl Property for C08 {
         }
     }
     fn required_labels(&self, _tier: Tier) -> Vec<&'static str> {
-        vec!["nontrivial", "v1", "v2", "v3", "flags", "section>65535-bytes"]
+        vec!["nontrivial", "v1", "v2", "v3", "flags", "section>65535-bytes", "term-name>=247-bytes", "record-name>=247-bytes"]
     }
     fn run_generated(&self, tier: Tier, seed: u64, n: u64, stats: &mut Stats) -> Option<(Value, Failure)> {
         run_typed(strategy(tier), seed, n, stats, check)
